@@ -337,10 +337,7 @@ fn parse_quoted_string(
                             push_escape_character = in_double_quotes;
                             c2
                         }
-                        '"' => {
-                            push_escape_character = in_single_quotes;
-                            c2
-                        }
+                        '"' => c2,
                         '`' => c2,
                         'x' | 'X' | 'u' | 'U' => {
                             let length = match c2 {
